@@ -3,6 +3,8 @@ import FpVerif.Lemmas.IterPre
 import FpVerif.Lemmas.PipeSim
 import FpVerif.Lemmas.PipeBound
 import FpVerif.Lemmas.IterPanic
+import FpVerif.Lemmas.PipeDemand
+import FpVerif.Lemmas.IterCbPanic
 /-!
 # C12 — Iterator combinators agree with eager Seq semantics, terminate, and are lazy
 
@@ -33,7 +35,15 @@ by the number of elements the consumer obtained plus at most one (`Take`, `TakeW
 
 Callbacks that may panic: section "callbacks that may panic" — for the terminal operations the step
 function may panic (`Outcome`); the panic propagates and the iterator is left as after the last
-completed pull.
+completed pull.  Section "callbacks INSIDE a pipeline that panic or log" (audit finding 12): `Map`,
+`Filter`, `TakeWhile` with a panicking callback under ANY script over any pipeline below
+(`map_script_panic`, `filter_script_panic`, `takeWhile_script_panic`), `FlatMap` step, and the log of
+`Map` with a logging callback in pull order (`map_log_pull_order`).
+
+Demand over the pipeline AST (audit finding 13): section "demand, compositionally" — `pipe_demand`:
+for EVERY linear pipeline (sources, `Map`, `TapEach`, `Take`, `TakeWhile`, `Scan`, `Zip*`,
+`MakePullIterator`, `Concat`; with `Drop`: `pipe_demand_drop`), arbitrary callbacks and sources,
+`Pipe.pulls ≤ width · (handed out + panicked) + lookahead`.
 
 The lazy `List` part of the property is in `Spec/C12List.lean`.
 -/
@@ -1110,3 +1120,307 @@ theorem takeWhile_generate (g : Nat → GoM α) (gf : Nat → α) (hg : Total g 
     Represents (takeWhile p (generate g)) (n0, {}) [] ((genList gf n0 (k + 1)).takeWhile gp) :=
   ⟨_, takeWhile_of_presim hp (generate_presim hg), genList gf n0 (k + 1), ⟨k + 1, rfl⟩,
     ⟨gf (n0 + k), genList_mem_last gf n0 k, hk⟩, rfl⟩
+
+/-! ## demand, compositionally: the pull counter of EVERY linear pipeline (audit finding 13)
+
+`Pipe.pulls` (Model/IterPipe.lean) is the number of elements handed out by the instrumented sources
+of a pipeline.  The theorems of the section "demand" above are about ONE combinator over ONE
+instrumented slice and need `Total` callbacks.  Here: an induction over the `Pipe` AST by a potential
+argument on single closure calls (`Lemmas/PipeDemand.lean`, `StepB`): every `HasNext` / `Next` raises
+`pulls − held` (`held` = pulls that sit in a look-ahead variable) by at most `width p` (the number of
+instrumented sources), a `HasNext` that returns by nothing.  NO hypothesis on the callbacks (they may
+log and panic), none on the sources (`Generate` included — no `Pipe.WB`), none on the script, none on
+the fuel.  A panicking call may lose the element it was working on, which is why the panicking calls
+are counted next to the elements handed out.
+
+`Pipe.Linear` — sources, `Map`, `TapEach`, `Take`, `TakeWhile`, `Scan`, `Zip`, `Zip3`,
+`ZipWithIndex`, `MakePullIterator`, `Concat` (over the shared component list `parts`, any nesting) —
+are the combinators for which "pulls ≤ elements handed out + constant" is TRUE; `Pipe.LinearD` adds
+`Drop(n)`, which spends `n` elements ONCE at construction (`Pipe.dropped`; `pipe_demand_drop`, so also
+`x.Concat(y).Drop(n).Concat(z)`).  `Filter`, `FilterNot`, `DropWhile`, `FlatMap`, `FilterMap` skip a
+data-dependent number of elements: for them such a bound is FALSE (`filter_no_linear_bound`); what
+they pull is stated per combinator in `filter_demand`, `dropWhile_demand`, `flatMap_demand` above. -/
+
+/-- EVERY linear pipeline `p`, every argument, every fuel, every log: building `p` succeeds, and
+    after ANY script of `HasNext` / `Next` calls the instrumented sources have handed out at most
+
+        width p · (elements handed out + calls that panicked) + lookahead p
+
+    elements; `lookahead p` is the structural constant `Pipe.lookahead` (one per `MakePullIterator`,
+    `width` of the underlying pipeline per `TakeWhile`).  Nothing is assumed about callbacks or
+    sources. -/
+theorem pipe_demand (p : Pipe) (hl : p.Linear) (fuel : Nat) (x : Val) (lg : Log) :
+    ∃ (s0 : p.St) (lg0 : Log), (p.buildF fuel x).run.run lg = (.ok s0, lg0) ∧
+      ∀ cs : List Call,
+        p.pulls (runScript (p.machineF fuel) cs s0 lg0).2.1
+          ≤ p.width * (vals (runScript (p.machineF fuel) cs s0 lg0).1 + panics (runScript (p.machineF fuel) cs s0 lg0).1)
+            + p.lookahead := by
+  obtain ⟨s0, lg0, e, h0⟩ := Pipe.build_linear fuel p hl x lg
+  exact ⟨s0, lg0, e, fun cs => Pipe.pulls_le_of_stepB fuel p hl s0 h0 cs lg0⟩
+
+/-- the same for what the oracle runs (`Pipe.build`, `Pipe.machine`: fuel `FUEL`) -/
+theorem pipe_demand_oracle (p : Pipe) (hl : p.Linear) (x : Val) (lg : Log) :
+    ∃ (s0 : p.St) (lg0 : Log), (p.build x).run.run lg = (.ok s0, lg0) ∧
+      ∀ cs : List Call,
+        p.pulls (runScript p.machine cs s0 lg0).2.1
+          ≤ p.width * (vals (runScript p.machine cs s0 lg0).1 + panics (runScript p.machine cs s0 lg0).1) + p.lookahead :=
+  pipe_demand p hl FUEL x lg
+
+/-- the step form: one call of a linear pipeline's iterator, from ANY state. -/
+theorem pipe_demand_step (p : Pipe) (hl : p.Linear) (fuel : Nat) :
+    StepB (p.machineF fuel) p.pot p.width p.width := Pipe.stepB fuel p hl
+
+/-- the look-ahead really is bounded by the structural constant, in every state -/
+theorem pipe_held_le (p : Pipe) (s : p.St) : p.held s ≤ p.lookahead := Pipe.held_le_lookahead p s
+
+/-- pipelines that also contain `Drop(n)`: IF construction returns (a panicking callback can abort
+    a `Drop` loop; for `Pipe.WB` pipelines it does return: `pipe_jointF`), then after any script
+
+        pulls ≤ width p · (handed out + panicked) + lookahead p + dropped p
+
+    where `dropped p` is the sum of `n · width` over the `Drop(n)` of the pipeline. -/
+theorem pipe_demand_drop (p : Pipe) (hl : p.LinearD) (fuel : Nat) (x : Val) (lg : Log) (s0 : p.St) (lg0 : Log)
+    (hb : (p.buildF fuel x).run.run lg = (.ok s0, lg0)) (cs : List Call) :
+    p.pulls (runScript (p.machineF fuel) cs s0 lg0).2.1
+      ≤ p.width * (vals (runScript (p.machineF fuel) cs s0 lg0).1 + panics (runScript (p.machineF fuel) cs s0 lg0).1)
+        + p.lookahead + p.dropped :=
+  Pipe.pulls_le_of_stepBD fuel p hl s0 p.dropped (Pipe.build_linearD fuel p hl x lg s0 lg0 hb) cs lg0
+
+/-- `x.Concat(y).Drop(n).Concat(z)` over three instrumented slices (the pipeline of
+    `concat_drop_concat`), followed by `Map(f)` with an arbitrary `f`: every element handed out
+    costs ONE pull, `Drop` has spent at most `n`, there is no look-ahead. -/
+theorem concat_drop_concat_demand (xs ys zs : List Val) (n : Int) (f : Val → GoM Val) (fuel : Nat) (x : Val) (lg : Log)
+    (s0 : (Pipe.map (.concat (.drop (.concat (.src 0 xs) (.src 1 ys)) n) (.src 2 zs)) f).St) (lg0 : Log)
+    (hb : ((Pipe.map (.concat (.drop (.concat (.src 0 xs) (.src 1 ys)) n) (.src 2 zs)) f).buildF fuel x).run.run lg = (.ok s0, lg0))
+    (cs : List Call) :
+    let P := Pipe.map (.concat (.drop (.concat (.src 0 xs) (.src 1 ys)) n) (.src 2 zs)) f
+    P.pulls (runScript (P.machineF fuel) cs s0 lg0).2.1
+      ≤ vals (runScript (P.machineF fuel) cs s0 lg0).1 + panics (runScript (P.machineF fuel) cs s0 lg0).1 + n.toNat := by
+  intro P
+  have := pipe_demand_drop P (by simp [P, Pipe.LinearD]) fuel x lg s0 lg0 hb cs
+  simpa [P, Pipe.width, Pipe.lookahead, Pipe.dropped] using this
+
+/-- `q.Take(n)` for a linear `q` (also over `Generate`, also `n` huge or negative): however long the
+    script, every source is pulled at most `n` times plus the look-ahead of `q` plus once per
+    panicking call.  The number of calls does not enter: `Take` stops asking. -/
+theorem take_pipe_demand (q : Pipe) (hl : q.Linear) (n : Int) (fuel : Nat) (x : Val) (lg : Log) :
+    ∃ (s0 : (Pipe.take q n).St) (lg0 : Log), ((Pipe.take q n).buildF fuel x).run.run lg = (.ok s0, lg0) ∧
+      ∀ cs : List Call,
+        (Pipe.take q n).pulls (runScript ((Pipe.take q n).machineF fuel) cs s0 lg0).2.1
+          ≤ q.width * (n.toNat + panics (runScript ((Pipe.take q n).machineF fuel) cs s0 lg0).1) + q.lookahead := by
+  obtain ⟨s0, lg0, e, h0⟩ := Pipe.build_linear fuel q hl x lg
+  refine ⟨(s0, (0 : Nat)), lg0, by rw [Pipe.buildF, gom_bind_ok e]; rfl, fun cs => ?_⟩
+  have em : (Pipe.take q n).machineF fuel = It.take n (q.machineF fuel) := by rw [Pipe.machineF]
+  rw [em]
+  exact Pipe.take_pulls_le fuel q hl n s0 h0 cs lg0
+
+/-- `Generate(g).Map(f).TakeWhile(p).Take(n)` with ARBITRARY `f`, `p` (logging, panicking): the
+    generator is called at most `n + 1` times plus once per panicking call, whatever the script. -/
+theorem take_takeWhile_map_generate_demand (id : Nat) (a b : Int) (f : Val → GoM Val) (p : Val → GoM Bool) (n : Int)
+    (fuel : Nat) (x : Val) (lg : Log) :
+    let P := Pipe.take (.takew (.map (.gen id a b) f) p) n
+    ∃ (s0 : P.St) (lg0 : Log), (P.buildF fuel x).run.run lg = (.ok s0, lg0) ∧
+      ∀ cs : List Call,
+        P.pulls (runScript (P.machineF fuel) cs s0 lg0).2.1 ≤ n.toNat + panics (runScript (P.machineF fuel) cs s0 lg0).1 + 1 := by
+  intro P
+  obtain ⟨s0, lg0, e, h⟩ := take_pipe_demand (.takew (.map (.gen id a b) f) p) (by simp [Pipe.Linear]) n fuel x lg
+  refine ⟨s0, lg0, e, fun cs => ?_⟩
+  have := h cs
+  simpa [Pipe.width, Pipe.lookahead] using this
+
+/-- For the skipping combinators NO bound of the shape `c · (handed out + panicked) + c'` holds with
+    structural constants: `Filter(never)` over a five element slice — ONE `HasNext`, nothing handed
+    out, nothing panicked, the whole source pulled.  (Replace the slice by a longer one for any
+    given constants.)  What `Filter` pulls is "up to the next hit": `filter_demand`. -/
+theorem filter_no_linear_bound :
+    let p : Pipe := .filter (.src 0 [.int 1, .int 2, .int 3, .int 4, .int 5]) (fun _ => pure false)
+    ∃ s0 : p.St, (p.buildF 10 (.int 0)).run.run [] = (.ok s0, []) ∧
+      vals (runScript (p.machineF 10) [.H] s0 []).1 = 0 ∧ panics (runScript (p.machineF 10) [.H] s0 []).1 = 0 ∧
+      p.pulls (runScript (p.machineF 10) [.H] s0 []).2.1 = 5 := by
+  intro p
+  have em : p.machineF 10 = filter 10 (fun _ => pure false) (ofSeq (some (srcTag 0)) [.int 1, .int 2, .int 3, .int 4, .int 5]) := by
+    show Pipe.machineF 10 (.filter (.src 0 _) _) = _
+    rw [Pipe.machineF, Pipe.machineF]; rfl
+  have eb : (p.buildF 10 (.int 0)).run.run [] = (.ok (((0 : Nat), {}) : p.St), []) := by
+    show (Pipe.buildF 10 (.filter (.src 0 _) _) _).run.run [] = _
+    rw [Pipe.buildF, Pipe.buildF]; rfl
+  refine ⟨((0 : Nat), {}), eb, ?_⟩
+  rw [em]
+  exact ⟨rfl, rfl, rfl⟩
+
+/-- non-vacuity of `pipe_demand`: a linear pipeline with two instrumented sources, a pull iterator
+    and a `TakeWhile`; its constants -/
+example : (Pipe.concat (.concat (.src 0 [.int 1]) (.gen 1 0 1)) (.pullseq 2 [.int 5])).Linear := by simp [Pipe.Linear]
+example : (Pipe.concat (.concat (.src 0 [.int 1]) (.gen 1 0 1)) (.pullseq 2 [.int 5])).width = 1 := rfl
+example : (Pipe.concat (.concat (.src 0 [.int 1]) (.gen 1 0 1)) (.pullseq 2 [.int 5])).lookahead = 1 := rfl
+example : (Pipe.takew (.zip (.pullseq 1 [.int 1, .int 2]) (.map (.gen 2 0 1) (fun v => pure v))) (fun _ => pure true)).Linear := by
+  simp [Pipe.Linear]
+example : (Pipe.takew (.zip (.pullseq 1 [.int 1, .int 2]) (.map (.gen 2 0 1) (fun v => pure v))) (fun _ => pure true)).width = 2 := rfl
+example : (Pipe.takew (.zip (.pullseq 1 [.int 1, .int 2]) (.map (.gen 2 0 1) (fun v => pure v))) (fun _ => pure true)).lookahead = 3 := rfl
+
+/-! ## callbacks INSIDE a pipeline that panic or log (audit finding 12)
+
+`Total f g` (all the `…_represents` theorems, `Pipe.WB`) lets a callback log but not panic, and says
+nothing about WHAT is logged.  Here the callback of `Map`, `Filter`, `TakeWhile`, `FlatMap` is any
+`Outcome f g` (`g a : Except PanicVal _`: returns or panics; logs at will), the iterator below is
+ANY iterator that represents a list (any pipeline of this file).  The demand side needs no
+hypothesis at all: `pipe_demand` above holds for panicking and logging callbacks. -/
+
+/-- `Map(f)`: `Next` returns `g a` or panics with `g a`'s panic — the panic comes out of the `Next`
+    that evaluates `f a` — and in both cases the iterator then represents exactly the elements
+    AFTER `a` (the state of `Map` is the state of the iterator below). -/
+theorem map_next_panic (f : α → GoM β) (g : α → Except PanicVal β) (hf : Outcome f g) (m : Machine σ α) (s : σ)
+    (a : α) (r : List α) (h : Represents m s [] (a :: r)) (lg : Log) :
+    ∃ s' lg', (map f m).next s lg = (g a, s', lg') ∧ Represents m s' [] r := by
+  obtain ⟨s', lg', e, hR⟩ := map_next_outcome hf (Represents.sim m) s [] a r lg h
+  exact ⟨s', lg', e, represents_reset m s' _ _ hR⟩
+
+/-- `Map(f)` under ANY script: the observations are those of the reference `mapSpecObs g` on the
+    list (`val (g a)` or `panic q` per element pulled, in order; a panicking element is consumed),
+    and the iterator is left representing exactly what the script has not consumed. -/
+theorem map_script_panic (f : α → GoM β) (g : α → Except PanicVal β) (hf : Outcome f g) (m : Machine σ α) (s : σ)
+    (l : List α) (h : Represents m s [] l) (cs : List Call) (lg : Log) :
+    ObsAgreeL (runScript (map f m) cs s lg).1 (mapSpecObs g cs l) ∧
+      Represents m (runScript (map f m) cs s lg).2.1 [] (specRest cs l) := by
+  obtain ⟨ho, hR⟩ := map_outcome_script hf (Represents.sim m) cs s [] l lg h
+  exact ⟨ho, represents_reset m _ _ _ hR⟩
+
+/-- with `Total` callbacks `mapSpecObs` is the plain `specScript` of the mapped list: the new
+    theorem specialises to the old reading -/
+theorem mapSpecObs_total (g : α → β) : ∀ (cs : List Call) (l : List α),
+    (mapSpecObs (fun a => .ok (g a)) cs l).map Obs.erase = specScript cs (l.map g) := by
+  intro cs
+  induction cs with
+  | nil => intro l; rfl
+  | cons c cs ih =>
+    intro l
+    cases c with
+    | H => simp [mapSpecObs, specScript, ih, Obs.erase]
+    | N =>
+      cases l with
+      | nil => simpa [mapSpecObs, specScript, Obs.erase] using ih []
+      | cons a r => simp [mapSpecObs, specScript, ih, Obs.erase, outcomeObs]
+
+/-- LOGGING callbacks: `Map(f)` over the (instrumented) slice iterator, `f a` logging `ev a` and then
+    returning / panicking as `g a`; ANY script.  Observations, position of the source and the LOG are
+    the reference's — the log of the run is, in pull order, for every element pulled: the source's
+    event, then the callback's events.  Nothing is evaluated ahead of the consumer, nothing twice. -/
+theorem map_log_pull_order (f : α → GoM β) (g : α → Except PanicVal β) (ev : α → List Event) (hf : Logs f g ev)
+    (tag : Option (α → Event)) (xs : List α) (cs : List Call) (lg : Log) :
+    runScript (map f (ofSeq tag xs)) cs 0 lg =
+      (mapSpecObs g cs xs, xs.length - (specRest cs xs).length, lg ++ mapSpecLog (tagEvs tag) ev cs xs) := by
+  simpa using map_ofSeq_script hf tag xs cs 0 lg (Nat.zero_le _)
+
+/-- a full run of `Next` calls over a callback that never panics: the log is the concatenation of
+    the callback logs (interleaved with the source's events) in element order -/
+theorem map_log_all (tagEv ev : α → List Event) : ∀ (xs : List α),
+    mapSpecLog tagEv ev (List.replicate xs.length Call.N) xs = xs.flatMap (fun a => tagEv a ++ ev a) := by
+  intro xs
+  induction xs with
+  | nil => rfl
+  | cons a r ih => simp [List.replicate_succ, mapSpecLog, ih]
+
+/-- `Filter(p).HasNext` before the first look-ahead, `p` panicking where `g` says so: `findE g l` is
+    the reference (outcome of the search, elements not pulled).  A panic propagates out of `HasNext`,
+    the captured variables are untouched, and the iterator below represents exactly the elements
+    AFTER the offending one — the Filter iterator is a fresh Filter over them. -/
+theorem filter_hasNext_panic (p : α → GoM Bool) (g : α → Except PanicVal Bool) (hp : Outcome p g) (m : Machine σ α)
+    (s : σ) (l : List α) (h : Represents m s [] l) (fuel : Nat) (hfuel : l.length < fuel) (lg : Log) :
+    ∃ s' lg', Represents m s' [] (findE g l).2 ∧
+      (filter fuel p m).hasNext (s, {}) lg =
+        match (findE g l).1 with
+        | .ok fv => (.ok fv.isSome, (s', { first := false, fv := fv }), lg')
+        | .error q => (.error q, (s', {}), lg') := by
+  obtain ⟨s', lg', d1, hR, _, e⟩ := filter_hasNext_first hp (Represents.sim m) fuel s none [] l lg hfuel h
+  exact ⟨s', lg', represents_reset m s' _ _ hR, e⟩
+
+/-- `Filter(p).Next` with look-ahead `ret`: it runs the search for the NEXT look-ahead before
+    returning.  If `p` panics there, the panic comes out of this `Next` (one element early), `ret`
+    is NOT lost (`fv` still holds it) and the iterator below represents the elements after the
+    offending one: a client that recovers gets `ret` next, then the later hits. -/
+theorem filter_next_panic (p : α → GoM Bool) (g : α → Except PanicVal Bool) (hp : Outcome p g) (m : Machine σ α)
+    (s : σ) (ret : α) (l : List α) (h : Represents m s [] l) (fuel : Nat) (hfuel : l.length < fuel) (lg : Log) :
+    ∃ s' lg', Represents m s' [] (findE g l).2 ∧
+      (filter fuel p m).next (s, { first := false, fv := some ret }) lg =
+        match (findE g l).1 with
+        | .ok fv => (.ok ret, (s', { first := false, fv := fv }), lg')
+        | .error q => (.error q, (s', { first := false, fv := some ret }), lg') := by
+  obtain ⟨s', lg', d1, hR, _, e⟩ := filter_next_lookahead hp (Represents.sim m) fuel s ret [] l lg hfuel h
+  exact ⟨s', lg', represents_reset m s' _ _ hR, e⟩
+
+/-- `Filter(p)` under ANY script, over any iterator that represents `l`, `p` panicking where `g` says
+    so: the observations are EXACTLY those of the reference `filterSpec g` (a small state machine over
+    the list: `filterStep`), the captured variables end in the reference's mode, and the iterator
+    below represents the reference's rest.  Together with `map_script_panic` this is the outcome
+    semantics of the two combinators for every script. -/
+theorem filter_script_panic (p : α → GoM Bool) (g : α → Except PanicVal Bool) (hp : Outcome p g) (m : Machine σ α)
+    (s : σ) (l : List α) (h : Represents m s [] l) (fuel : Nat) (hfuel : l.length < fuel) (cs : List Call) (lg : Log) :
+    (runScript (filter fuel p m) cs (s, {}) lg).1 = (filterSpec g cs none l).1 ∧
+      filterMode (runScript (filter fuel p m) cs (s, {}) lg).2.1.2 = (filterSpec g cs none l).2.1 ∧
+      Represents m (runScript (filter fuel p m) cs (s, {}) lg).2.1.1 [] (filterSpec g cs none l).2.2 := by
+  obtain ⟨h1, h2, d', h3⟩ := filter_outcome_script hp (Represents.sim m) fuel cs s {} [] l lg hfuel h
+  exact ⟨h1, h2, represents_reset m _ _ _ h3⟩
+
+/-- the reference at work: the predicate panics on `2`.  `HasNext` finds `1`; the first `Next` panics
+    ("boom" — raised while looking for the element AFTER `1`) and keeps `1`; the second `Next` hands
+    out `1`, the third `3`.  A recovering client sees the panic one element early and loses only `2`. -/
+example :
+    (filterSpec (fun n : Nat => if n = 2 then (.error "boom" : Except PanicVal Bool) else .ok true)
+      [.H, .N, .N, .N, .H] none [1, 2, 3]).1 = [.has true, .panic "boom", .val 1, .val 3, .has false] := by decide
+
+/-- `findE` at the first panic: everything before is rejected, the offending element is consumed,
+    what follows has not been pulled -/
+theorem findE_at_first_panic (g : α → Except PanicVal Bool) (pre post : List α) (a : α) (q : PanicVal)
+    (hpre : ∀ b ∈ pre, g b = .ok false) (ha : g a = .error q) :
+    findE g (pre ++ a :: post) = (.error q, post) := by
+  induction pre with
+  | nil => simp [findE, ha]
+  | cons b pre ih =>
+    have hb := hpre b (by simp)
+    simp only [List.cons_append, findE, hb]
+    exact ih (fun c hc => hpre c (by simp [hc]))
+
+/-- `TakeWhile(p).HasNext` without look-ahead: the outcome of `p` on the next element decides; a
+    panic propagates, the element is consumed, `breaking` stays `false` — the iterator continues as
+    a fresh TakeWhile over the elements after it. -/
+theorem takeWhile_hasNext_panic (p : α → GoM Bool) (g : α → Except PanicVal Bool) (hp : Outcome p g) (m : Machine σ α)
+    (s : σ) (a : α) (r : List α) (h : Represents m s [] (a :: r)) (lg : Log) :
+    ∃ s' lg', Represents m s' [] r ∧
+      (takeWhile p m).hasNext (s, {}) lg =
+        match g a with
+        | .ok true => (.ok true, (s', { breaking := false, fv := some a }), lg')
+        | .ok false => (.ok false, (s', { breaking := true, fv := none }), lg')
+        | .error q => (.error q, (s', {}), lg') := by
+  obtain ⟨s', lg', hR, e⟩ := takeWhile_hasNext_outcome hp (Represents.sim m) s [] a r lg h
+  exact ⟨s', lg', represents_reset m s' _ _ hR, e⟩
+
+/-- `TakeWhile(p)` under ANY script, over any iterator that represents `l`, `p` panicking where `g`
+    says so: observations and captured variables are EXACTLY the reference's (`twSpec g` /
+    `twStep`), the iterator below represents the reference's rest. -/
+theorem takeWhile_script_panic (p : α → GoM Bool) (g : α → Except PanicVal Bool) (hp : Outcome p g) (m : Machine σ α)
+    (s : σ) (l : List α) (h : Represents m s [] l) (cs : List Call) (lg : Log) :
+    (runScript (takeWhile p m) cs (s, {}) lg).1 = (twSpec g cs {} l).1 ∧
+      (runScript (takeWhile p m) cs (s, {}) lg).2.1.2 = (twSpec g cs {} l).2.1 ∧
+      Represents m (runScript (takeWhile p m) cs (s, {}) lg).2.1.1 [] (twSpec g cs {} l).2.2 := by
+  obtain ⟨h1, h2, d', h3⟩ := takeWhile_outcome_script hp (Represents.sim m) cs s {} [] l lg h
+  exact ⟨h1, h2, represents_reset m _ _ _ h3⟩
+
+/-- the reference at work: the predicate panics on `2` and rejects `4`: the panic comes out of the
+    call that evaluates it, `2` is lost, the iterator CONTINUES with `3` and ends at `4`. -/
+example :
+    (twSpec (fun n : Nat => if n = 2 then (.error "boom" : Except PanicVal Bool) else .ok (decide (n < 4)))
+      [.N, .H, .N, .N, .H] {} [1, 2, 3, 4, 5]).1 = [.val 1, .panic "boom", .val 3, .panic nextOnEmpty, .has false] := by decide
+
+/-- `FlatMap(mf).HasNext` when `mf` panics on the next element (no inner iterator yet): the panic
+    propagates, the element is consumed, `current` stays `None`. -/
+theorem flatMap_hasNext_cb_panic (mf : α → GoM τ) (gm : α → Except PanicVal τ) (hmf : Outcome mf gm) (inner : Machine τ β)
+    (m : Machine σ α) (s : σ) (a : α) (r : List α) (h : Represents m s [] (a :: r)) (q : PanicVal) (hq : gm a = .error q)
+    (fuel : Nat) (lg : Log) :
+    ∃ s' lg', (flatMap (fuel + 1) mf inner m).hasNext (s, none) lg = (.error q, (s', none), lg') ∧ Represents m s' [] r := by
+  obtain ⟨s', lg', e, hR⟩ := flatMap_hasNext_panic hmf inner (Represents.sim m) fuel s [] a r lg q h hq
+  exact ⟨s', lg', e, represents_reset m s' _ _ hR⟩
+
+/-- non-vacuity: a callback that logs and panics on some elements satisfies `Logs` (hence `Outcome`) -/
+example (t : α → Event) (bad : α → Bool) (q : PanicVal) (h : α → β) :
+    Logs (fun a => (do emit (t a); if bad a then throw q else pure (h a) : GoM β))
+      (fun a => if bad a then .error q else .ok (h a)) (fun a => [t a]) := logs_example t bad q h
